@@ -19,6 +19,10 @@
                  = "parent"  the pinned test: string prefix against
                              dirname(docroot), i.e. everything below the
                              PARENT of the root passes;
+     Probe       = "exists"  os.path.exists/isfile/isdir (intended: a name that
+                             cannot exist is simply not found);
+                 = "stat"    one os.stat() in try/except OSError: a NUL in the
+                             location raises ValueError -> 500;
      TargetParse = "origin"  the request target is an absolute path (RFC 7230
                              5.3.1): "//x/y" has the path "//x/y";
                  = "urlsplit" the pinned parser: urlsplit() reads "//x/y" as a
@@ -29,7 +33,10 @@ CONSTANTS MaxLen,       \* longest token sequence
           Mounts,       \* subset of {"/", "/static"}
           FrontEnds,    \* subset of {"http", "direct"}
           Containment,  \* "root" | "parent"
-          TargetParse   \* "origin" | "urlsplit"
+          TargetParse,  \* "origin" | "urlsplit"
+          Probe,        \* "exists" | "stat"
+          Exotic,       \* the exotic tokens in play (subset of ExoticTokens)
+          ExoticMaxLen  \* a sequence with an exotic token has one of them and at most this length
 
 VARIABLES phase,   \* "build" | "done"
           P, bad,  \* monitor state, first failed clause
@@ -52,8 +59,8 @@ Parsed(mount, toks) ==
    through iff  path = sanitised  or  quote(path) = sanitised.                *)
 NoDots(toks)       == \A i \in 1..Len(toks) : toks[i] \notin {"dd", "d"}
 NoInnerEmpty(toks) == \A i \in 1..Len(toks) : toks[i] = "e" => i = Len(toks)
-RawIsEscaped(t)    == t \notin {"bs", "e1", "es"}      \* quote(unquote(t)) = t
-QuotedIsEscaped(t) == t \notin {"e2", "e1", "es"}      \* quote(unquote(t)) = quote(t)
+RawIsEscaped(t)    == t \notin {"bs", "e1", "es", "xff"}      \* quote(unquote(t)) = t
+QuotedIsEscaped(t) == t \notin {"e2", "e1", "es", "xff", "n0", "fn", "nf", "dn"}   \* quote(unquote(t)) = quote(t)
 GuardPass(toks) ==
   /\ NoDots(toks) /\ NoInnerEmpty(toks)
   /\ \/ \A i \in 1..Len(toks) : RawIsEscaped(toks[i])
@@ -63,12 +70,19 @@ Contained(pos) ==
   IF Containment = "root" THEN Inside(pos)
   ELSE pos.above = 0 /\ Len(pos.names) >= 1 /\ pos.names[1] = "p"
 
-(* circuits/web/dispatchers/static.py *)
+(* the location string still carries a NUL after the lexical normalisation *)
+HasNul(pos) == \E i \in 1..Len(pos.names) : pos.names[i] \in NulNames
+
+(* circuits/web/dispatchers/static.py: containment, then the file-system probe.
+   os.path.exists/isfile/isdir answer False for a name that cannot exist (they
+   swallow OSError and ValueError); os.stat() raises ValueError("embedded null
+   byte"), which `except OSError` does not catch: the handler dies, 500.       *)
 StaticAnswer(toks) ==
   LET pos  == FsWalk(toks)
       node == FS(pos)
-  IN IF node.kind = "missing" THEN <<404, "other">>
-     ELSE IF ~Contained(pos) THEN <<404, "other">>
+  IN IF ~Contained(pos) THEN <<404, "other">>
+     ELSE IF Probe = "stat" /\ HasNul(pos) THEN <<500, "other">>
+     ELSE IF node.kind = "missing" THEN <<404, "other">>
      ELSE <<200, node.id>>
 
 Answer(mount, fe, toks) ==
@@ -79,8 +93,12 @@ Answer(mount, fe, toks) ==
 
 (* the environment builds the request: mount and front end at Init, one token
    per step; the exchange may happen after any prefix *)
+HasExotic(toks) == \E i \in 1..Len(toks) : toks[i] \in ExoticTokens
+
 AddToken(t) ==
   /\ phase = "build" /\ Len(hist[3]) < MaxLen
+  /\ (t \in ExoticTokens) => ~HasExotic(hist[3])
+  /\ (t \in ExoticTokens \/ HasExotic(hist[3])) => Len(hist[3]) < ExoticMaxLen
   /\ hist' = [hist EXCEPT ![3] = Append(@, t)]
   /\ UNCHANGED <<phase, P, bad, out>>
 
@@ -94,7 +112,7 @@ Exchange ==
 Init == /\ phase = "build" /\ P = P0 /\ bad = "" /\ out = <<>>
         /\ hist \in {<<m, f, <<>>>> : m \in Mounts, f \in FrontEnds}
 
-Next == (\E t \in Tokens : AddToken(t)) \/ Exchange
+Next == (\E t \in BaseTokens \cup Exotic : AddToken(t)) \/ Exchange
 
 Spec == Init /\ [][Next]_vars
 
